@@ -105,6 +105,8 @@ def syntaxerror_justification(s, lx):
     for t in lx.tokens:
         if t.is_python and (not t.complete or not LX.python_valid(t.text)):
             return "reference-lexer"
+    if lx.ok and not lx.unspec:
+        return None      # the lexing is pinned down and every fragment is valid Python: a SyntaxError has no excuse
     for frag in real_python_tokens(s):
         if not LX.python_valid(frag):
             return "real-tokenizer-only"
@@ -299,7 +301,7 @@ def drv_multistage(c, ctx, col):
 # histories of feature-flag changes on ONE parser object --------------------------
 
 PROBES = ["y ~ x", "a | b", "[a ~ b]", "y ~ a | b"]
-SPEC_FORMS = ["enum", "set", "SET", "names"]
+SPEC_FORMS = ["enum", "set", "SET", "names", "overlap1", "overlap2"]
 TARGETS = ["parser", "resolver"]
 COPIES = ["pickle", "deepcopy"]
 
@@ -313,6 +315,17 @@ def flag_spec(flags, form):
         return {f.lower() for f in flags}
     if form == "SET":
         return {f.upper() for f in flags}
+    if form in ("overlap1", "overlap2"):
+        # sets of names that OVERLAP (a convenience name together with flags it already contains): the meaning is the union
+        fs = set(flags)
+        extra = ["twosided", "multipart"][form == "overlap2"]
+        if fs == set(ALL_FLAGS):
+            return {"all", extra} if form == "overlap1" else {"default", "multistage", extra, "all"}
+        if {"TWOSIDED", "MULTIPART"} <= fs:
+            return {"default", extra}
+        if fs:
+            return {"none"} | {f.lower() for f in fs} | {sorted(fs)[0].upper()}   # the same flag in two spellings
+        return {"none", "NONE"}
     if form == "names":
         fs = set(flags)
         if fs == set(ALL_FLAGS):
@@ -353,14 +366,25 @@ def drv_flag_histories(c, ctx, col):
 
     flags = c.pick(ctx["init_flags"])
     how = c.pick(ctx["init_forms"])          # spelling of the constructor argument, or ("resolver", f1, f2)
+
+    def refused(what, e):
+        col.violation("flag-history :: %s" % what, {"call": what, "error": "%s: %s" % (type(e).__name__, str(e)[:200]), "repro": what},
+                      sig="valid-flag-specification-refused:" + type(e).__name__)
+
     if isinstance(how, tuple):
-        parser = DefaultFormulaParser(operator_resolver=DefaultOperatorResolver(feature_flags=flag_spec(flags, how[1])),
-                                      feature_flags=flag_spec(flags, how[2]))
         hist = ["DefaultFormulaParser(operator_resolver=DefaultOperatorResolver(feature_flags=%r), feature_flags=%r)"
                 % (flag_spec(flags, how[1]), flag_spec(flags, how[2]))]
+        try:
+            parser = DefaultFormulaParser(operator_resolver=DefaultOperatorResolver(feature_flags=flag_spec(flags, how[1])),
+                                          feature_flags=flag_spec(flags, how[2]))
+        except Exception as e:  # noqa
+            return refused(hist[0], e)
     else:
-        parser = DefaultFormulaParser(feature_flags=flag_spec(flags, how))
         hist = ["DefaultFormulaParser(feature_flags=%r)" % (flag_spec(flags, how),)]
+        try:
+            parser = DefaultFormulaParser(feature_flags=flag_spec(flags, how))
+        except Exception as e:  # noqa
+            return refused(hist[0], e)
     n = ctx["min_depth"] + c.upto(ctx["depth"] - ctx["min_depth"])
     warm = c.flag() if n > 0 else False      # parse once before the first event (builds the cached operator table)
     if warm:
@@ -406,12 +430,12 @@ def drv_flag_histories(c, ctx, col):
         else:
             form, flags = c.pick(ctx["step_forms"]), c.pick(subsets)
             spec = flag_spec(flags, form)
-            if target == "parser":
-                parser.set_feature_flags(spec)
-                hist.append("p.set_feature_flags(%r)" % (spec,))
-            else:
-                parser.operator_resolver.set_feature_flags(spec)
-                hist.append("p.operator_resolver.set_feature_flags(%r)" % (spec,))
+            call = ("p.set_feature_flags(%r)" if target == "parser" else "p.operator_resolver.set_feature_flags(%r)") % (spec,)
+            try:
+                (parser if target == "parser" else parser.operator_resolver).set_feature_flags(spec)
+            except Exception as e:  # noqa
+                return refused(" ; ".join(hist + [call]), e)
+            hist.append(call)
         if step < n - 1 and not c.flag():
             continue             # two events in a row without a parse in between
         probe()
@@ -508,6 +532,21 @@ def drv_py_shapes(c, ctx, col):
     col.sample({"formula": s, "include_intercept": icpt})
 
 
+QF_CHARS = ["a", " ", ")", "]", "}", "(", "[", "{", "'", '"']
+QF_TEMPLATES = ["f(`%s`)", "x[`%s`]", "{`%s` + 1}", "y ~ log(`%s`) + b", "C(`%s`, Treatment)", "f(g[`%s`])", "{f(`%s`)[`%s`]}", "f(x, [`%s`], {1: `%s`})",
+                "f(`%s`)(`%s`)"]
+
+
+def drv_quoted_in_fragment(c, ctx, col):
+    """a back-quoted name containing bracket closers / openers / quote characters inside each kind of Python fragment"""
+    name = "".join(c.seq(QF_CHARS, ctx["L"], 1))
+    tmpl = c.pick(QF_TEMPLATES)
+    s = tmpl.replace("%s", name)
+    icpt = not c.flag()
+    judge(col, "quoted-in-fragment", s, icpt, FLAG_SETS[0], None)
+    col.sample({"formula": s})
+
+
 # several back-quoted names that sanitize to the same Python alias ------------------------------------------------
 
 COLLIDING = [["a b", "a+b", "a-b", "a:b"], ["x 1", "x.1", "x-1", "x+1"]]
@@ -545,9 +584,9 @@ LONG_CONSTRUCTS = [
     ("nested square brackets", "'[' * n + 'a' + ']' * n", 3000),
     ("unclosed parentheses", "'(' * n + 'a'", 3000),
     ("unopened parentheses", "'a' + ')' * n", 3000),
-    ("nested stages", "'[a~' * n + 'z' + ']' * n", 3000),
+    ("nested stages", "'[a~' * n + 'z' + ']' * n", 1000),
     ("nested stages with sums", "'[a+b~c+' * n + 'z' + ']' * n", 1000),
-    ("two-sided formula with nested stages", "'y ~ x + ' + '[a~' * n + 'z' + ']' * n", 3000),
+    ("two-sided formula with nested stages", "'y ~ x + ' + '[a~' * n + 'z' + ']' * n", 1000),
     ("brackets around a stage", "'[' * n + 'a ~ b' + ']' * n", 3000),
     ("stage inside nested parentheses", "'(' * n + '[a ~ b]' + ')' * n", 3000),
     ("chain of **", "'a' + '**2' * n", 3000),
@@ -651,7 +690,7 @@ def subchecks(tier, seed):
                     {"init_flags": FLAG_SETS, "init_forms": SPEC_FORMS + res_forms, "min_depth": 0, "depth": 1,
                      "step_forms": SPEC_FORMS, "subsets": FLAG_SETS, "subsets_deep": FLAG_SETS}, shard_depth=3,
                     bounds={"constructed_with": "all 8 subsets x {FeatureFlags value, set of lower-case names, set of upper-case names, "
-                                                "set using 'all'/'default'/'none'} given to DefaultFormulaParser(feature_flags=...), and "
+                                                "set using 'all'/'default'/'none', two sets of OVERLAPPING names such as {'default','twosided'}} given to DefaultFormulaParser(feature_flags=...), and "
                                                 + ("4" if quick else "all 16") + " spelling pairs of DefaultFormulaParser(operator_resolver=DefaultOperatorResolver("
                                                 "feature_flags=S), feature_flags=S)",
                             "events": "0..1",
@@ -681,6 +720,8 @@ def subchecks(tier, seed):
                     bounds={"fragments": "%d valid Python fragments (unusual callees: subscript, call result, lambda, boolean/conditional "
                                          "expression, container element; every expression node type; C15's pool in brace and call form)" % len(frags),
                             "positions": PY_POSITIONS, "intercept": "both"}))
+    subs.append(Sub("quoted-in-fragment", drv_quoted_in_fragment, {"L": 2 if quick else 3}, shard_depth=2,
+                    bounds={"name_alphabet": QF_CHARS, "max_length": 2 if quick else 3, "templates": QF_TEMPLATES, "intercept": "both"}))
     subs.append(Sub("alias-collisions", drv_alias_collisions, {}, shard_depth=2,
                     bounds={"families": COLLIDING, "names_per_fragment": "every ordered selection of 2, 3, 4 distinct names, optionally "
                                                                           "repeating the first (pairs)", "forms": ["f(..)", "{.. + ..}"],
